@@ -313,6 +313,66 @@ def pcorrOf (tk patm : α) : PCorr α :=
     { active := true, b1 := b - cap pap1, b2 := b - cap pap2 }
   else { active := false, b1 := lit (12 / 10), b2 := lit (12 / 10) }
 
+/-! ## `ETHETA_PARAMS`: the Chebyshev series of J and X·J′ -/
+
+/-- `AKX[0..20]`: coefficients for `X ≤ 1` -/
+def akLow : List α := [(lit (1925154014814667 / 1000000000000000)), -(lit (60076477753119 / 1000000000000000)), -(lit (29779077456514 / 1000000000000000)), -(lit (7299499690937 / 1000000000000000)), (lit (388260636404 / 1000000000000000)), (lit (636874599598 / 1000000000000000)), (lit (36583601823 / 1000000000000000)), -(lit (45036975204 / 1000000000000000)), -(lit (453789571 / 100000000000000)), (lit (2937706971 / 1000000000000000)), (lit (396566462 / 1000000000000000)), -(lit (202099617 / 1000000000000000)), -(lit (25267769 / 1000000000000000)), (lit (1352261 / 100000000000000)), (lit (1229405 / 1000000000000000)), -(lit (821969 / 1000000000000000)), -(lit (50847 / 1000000000000000)), (lit (46333 / 1000000000000000)), (lit (1943 / 1000000000000000)), -(lit (2563 / 1000000000000000)), -(lit (10991 / 1000000000000000))]
+
+/-- `AKX[21..41]`: coefficients for `X > 1` -/
+def akHigh : List α := [(lit (628023320520852 / 1000000000000000)), (lit (462762985338493 / 1000000000000000)), (lit (150044637187895 / 1000000000000000)), -(lit (28796057604906 / 1000000000000000)), -(lit (36552745910311 / 1000000000000000)), -(lit (1668087945272 / 1000000000000000)), (lit (6519840398744 / 1000000000000000)), (lit (1130378079086 / 1000000000000000)), -(lit (887171310131 / 1000000000000000)), -(lit (242107641309 / 1000000000000000)), (lit (87294451594 / 1000000000000000)), (lit (34682122751 / 1000000000000000)), -(lit (4583768938 / 1000000000000000)), -(lit (3548684306 / 1000000000000000)), -(lit (25045388 / 100000000000000)), (lit (216991779 / 1000000000000000)), (lit (8077957 / 100000000000000)), (lit (4558555 / 1000000000000000)), -(lit (6944757 / 1000000000000000)), -(lit (2849257 / 1000000000000000)), (lit (237816 / 1000000000000000))]
+
+/-- `AK[i]` -/
+def akCoef (x : α) (i : Nat) : α := if x ≤ lit 1 then akLow.getD i (lit 0) else akHigh.getD i (lit 0)
+
+/-- three consecutive values of the recurrences `BK`, `DK` -/
+structure CS (α : Type) where
+  b0 : α
+  b1 : α
+  b2 : α
+  d0 : α
+  d1 : α
+  d2 : α
+
+/-- `BK[i] = z·BK[i+1] − BK[i+2] + AK[i]`, `DK[i] = BK[i+1] + z·DK[i+1] − DK[i+2]` -/
+def csStep (z a : α) (s : CS α) : CS α :=
+  ⟨((z * s.b0) - s.b1) + a, s.b0, s.b1, (s.b0 + (z * s.d0)) - s.d1, s.d0, s.d1⟩
+
+/-- `BK[20] = AK[20]`, `BK[19] = z·AK[20] + AK[19]`, `DK[19] = AK[20]`; `DK[20]` is never assigned by the routine (the member
+array holds the 0 of `pitzer_init`): it enters as `dk20` -/
+def csInit (z a20 a19 dk20 : α) : CS α := ⟨(z * a20) + a19, a20, lit 0, a20, dk20, lit 0⟩
+
+/-- the loop `for (i = 18; i >= 0; i--)` -/
+def csRun (z : α) (coef : Nat → α) (dk20 : α) : CS α :=
+  [18, 17, 16, 15, 14, 13, 12, 11, 10, 9, 8, 7, 6, 5, 4, 3, 2, 1, 0].foldl (fun s i => csStep z (coef i) s)
+    (csInit z (coef 20) (coef 19) dk20)
+
+/-- `L_Z` -/
+def lzOf (x : α) : α :=
+  if x ≤ lit 1 then (lit 4 * powf x (lit (2 / 10))) - lit 2 else ((lit 40 * powf x (-(lit (1 / 10)))) - lit 22) / lit 9
+
+/-- `L_DZ` -/
+def ldzOf (x : α) : α :=
+  if x ≤ lit 1 then (lit (8 / 10) * powf x (lit (2 / 10))) / lit 2 else ((-(lit 4)) * powf x (-(lit (1 / 10)))) / lit 18
+
+/-- `JAY = X/4 − 1 + 0.5 (BK[0] − BK[2])` -/
+def jay (x : α) : α :=
+  let s := csRun (lzOf x) (akCoef x) (lit 0)
+  ((x / lit 4) - lit 1) + (lit (5 / 10) * (s.b0 - s.b2))
+
+/-- `JPRIME = X·0.25 + L_DZ (DK[0] − DK[2])` -/
+def jprime (x dk20 : α) : α :=
+  let s := csRun (lzOf x) (akCoef x) dk20
+  (x * lit (25 / 100)) + (ldzOf x * (s.d0 - s.d2))
+
+/-- `ETHETAS`: `etheta = zj zk (J(xjk) − J(xjj)/2 − J(xkk)/2) / (4I)`, 0 for equal charges -/
+def ethetaOf (zj zk i jjk jjj jkk : α) : α :=
+  if isZero (zj - zk) then lit 0 else ((zj * zk) * ((jjk - (jjj / lit 2)) - (jkk / lit 2))) / (lit 4 * i)
+
+/-- `ethetap = zj zk (J′(xjk) − J′(xjj)/2 − J′(xkk)/2) / (8 I²) − etheta / I` (the `J′` here are the `JPRIME = X·dJ/dX`) -/
+def ethetapOf (zj zk i jjk jjj jkk pjk pjj pkk : α) : α :=
+  if isZero (zj - zk) then lit 0
+  else (((zj * zk) * ((pjk - (pjj / lit 2)) - (pkk / lit 2))) / ((lit 8 * i) * i)) - (ethetaOf zj zk i jjk jjj jkk / i)
+
 /-! ## SIT (`sit()`) -/
 
 /-- one entry of the SIT `param_list`: `type` 13 = ε, 14 = ε₁ (multiplied by `I`) -/
